@@ -252,6 +252,23 @@ def caller_lists(ctx, rng):
     Face3D(bb, None, hh)
     if (snap(bb), snap(hh)) != before:
         ctx.violation('Face3D.__init__:mutates_argument:lists', 'the caller\'s boundary / holes lists were changed', {})
+    # caller-owned list of faces of a solid, some of them wound inward (the routines re-orient faces: on copies only)
+    from .C07 import solid_faces, perturb
+    fam, faces, _ip = solid_faces(rng)
+    pert, flips = perturb(rng, faces)
+    for name in ('get_outward_faces', 'from_faces'):
+        lst = list(pert)
+        before = snap(lst); ids = [id(f) for f in lst]
+        try:
+            r = getattr(Polyface3D, name)(lst, 0.01)
+        except Exception:
+            continue
+        ctx.count('api.caller_lists', key=(name, flips > 0), sample={'method': name, 'inward_faces': flips})
+        if snap(lst) != before or [id(f) for f in lst] != ids:
+            ctx.violation('Polyface3D.%s:mutates_argument:faces' % name, 'the caller\'s list of faces was changed (%d of %d faces were given inward)' % (
+                flips, len(lst)), {'method': name, 'family': fam})
+        elif name == 'get_outward_faces' and r is lst:
+            ctx.violation('Polyface3D.get_outward_faces:returns_argument', 'the returned list is the caller\'s own list object', {'method': name})
 
 
 WORKLOAD = r'''
